@@ -101,10 +101,34 @@ def n_fds():
     return len(os.listdir("/proc/self/fd"))
 
 
+def fresh_interpreter_digest(data: bytes, html: bool, dup: bool, tmp: str):
+    """sha256 of the frozen values of all attributes, computed by a fresh Python process"""
+    import subprocess
+    import sys
+    path = os.path.join(tmp, "fresh_in.docx")
+    open(path, "wb").write(data)
+    code = ("import sys, hashlib, warnings; warnings.simplefilter('ignore'); import lifesweep as L; "
+            "from docx2python import docx2python; "
+            f"d = docx2python({path!r}, html={html!r}, duplicate_merged_cells={dup!r}); "
+            "vals = []\n"
+            "for a in L.ATTRS:\n"
+            "    try: vals.append(L.freeze(getattr(d, L.attr_name(a))))\n"
+            "    except Exception as ex: vals.append(('exc', type(ex).__name__))\n"
+            "d.close(); "
+            "print(hashlib.sha256(repr(vals).encode()).hexdigest())")
+    try:
+        p = subprocess.run([sys.executable, "-c", code], capture_output=True, text=True, timeout=120,
+                           env=dict(os.environ))
+        out = p.stdout.strip().splitlines()
+        return out[-1] if p.returncode == 0 and out else None
+    except Exception:  # noqa: BLE001
+        return None
+
+
 def eval_history(state, arg):
     stream, sub, fixed_ops = arg
     rng = random.Random(sub)
-    pkg = docgen.gen_package(random.Random(sub), docgen.Knobs(max_blocks=4, max_runs=3, links=0.45, link_mixed_format=0.5, lists=0.55, tables=0.15))
+    pkg = docgen.gen_package(random.Random(sub), docgen.Knobs(max_blocks=4, max_runs=3, links=0.45, link_mixed_format=0.5, lists=0.55, tables=0.15, images=0.5))
     data = pkg.to_bytes()
     html = rng.random() < 0.4
     dup = rng.random() < 0.7
@@ -129,6 +153,36 @@ def eval_history(state, arg):
 
         with warnings.catch_warnings():
             warnings.simplefilter("ignore")
+            if fixed_ops is None and rng.random() < 0.2:
+                # the same document with the OTHER family of namespace URIs (strict / ISO) was extracted
+                # earlier in this process: extraction is a function of the archive bytes alone, whatever
+                # was read before (round-7 seed C14-qn-cache-by-tag: a module-level memo keyed too
+                # coarsely).  The reference below then comes from a FRESH interpreter.
+                try:
+                    import pkgsweep
+                    twin = pkgsweep.strict_rels(docgen.gen_package(
+                        random.Random(sub), docgen.Knobs(max_blocks=4, max_runs=3, links=0.45, link_mixed_format=0.5, lists=0.55, images=0.5,
+                                                         tables=0.15), ns=common.NS_S)).to_bytes()
+                    tw = docx2python(io.BytesIO(twin), html=html, duplicate_merged_cells=dup)
+                    tw_vals = []
+                    try:
+                        for a in ATTRS:
+                            try:
+                                tw_vals.append(freeze(getattr(tw, attr_name(a))))
+                            except Exception as ex:  # noqa: BLE001
+                                tw_vals.append(("exc", type(ex).__name__))
+                    finally:
+                        tw.close()
+                    res["features"].append("other_uri_family_first")
+                    # whichever of the two families this process met first, the other one is the possible
+                    # victim: the twin is compared with a fresh interpreter too
+                    want_tw = fresh_interpreter_digest(twin, html, dup, tmp)
+                    if want_tw is not None and want_tw != hashlib.sha256(repr(tw_vals).encode()).hexdigest():
+                        res["fails"].append(["pure_function", "the values of the strict-URI twin differ from those a fresh interpreter "
+                                                              "extracts from the same bytes (documents of the other URI family were "
+                                                              "extracted earlier in this process)"])
+                except Exception:  # noqa: BLE001
+                    pass
             # reference values from fresh objects; the model covers packages that read cleanly
             fresh = {}
             ref = docx2python(io.BytesIO(data), html=html, duplicate_merged_cells=dup)
@@ -141,6 +195,12 @@ def eval_history(state, arg):
                         return res
             finally:
                 ref.close()
+            if "other_uri_family_first" in res["features"]:
+                want = fresh_interpreter_digest(data, html, dup, tmp)
+                got = hashlib.sha256(repr([fresh[a] for a in ATTRS]).encode()).hexdigest()
+                if want is not None and want != got:
+                    res["fails"].append(["pure_function", "the values differ from those a fresh interpreter extracts from the same bytes "
+                                                          "(another document was extracted earlier in this process)"])
             src_path = os.path.join(tmp, "in.docx")
             if kind != "bytesio" and rng.random() < 0.5:
                 # another document was extracted from this very path earlier in the process:
@@ -228,6 +288,15 @@ def eval_history(state, arg):
                                 pass
                         closed = True
                         outcomes.append([2])
+                    if op[0] in ("close", "exit"):
+                        # "leaving a with block closes exactly as close() does" and "no file handle opened by
+                        # the library is left open": checked right here, not only at the end of the history
+                        # (round-7 seed C15-nested-with-blocks-skip-close)
+                        zf_now = d.docx_reader._DocxReader__zipf
+                        if zf_now is not None and zf_now.fp is not None:
+                            res["fails"].append(["handle_released",
+                                                 f"the archive is still open right after {'close()' if op[0] == 'close' else 'leaving the with block'}"])
+                        del zf_now
                 except Exception as ex:  # noqa: BLE001
                     outcomes.append([1, common.EXN_CODES.get(type(ex).__name__, 98)])
                     if not closed:
